@@ -34,7 +34,9 @@ class Skip(Expression):
                         out += Code('continue')
                     continue
 
-                with out.IF(STATUS):
+                # Only start over when the expression made some progress. (A
+                # parent grammar's ignored rule succeeds without consuming.)
+                with out.IF(Code(STATUS, ' and ', POS != checkpoint)):
                     out += Code('continue')
 
                 if expr.can_partially_succeed():
